@@ -415,10 +415,14 @@ def add_signs_lights(draw, net, ids, profile=None, country="DEU"):
         if draw(st.integers(0, 3)) == 0:
             sl = {"start": l["left"][-1], "end": l["right"][-1],
                   "marking": draw(st.sampled_from(profile.get("stop_markings", LINE_MARKINGS)))}
-            if l.get("signs") and draw(st.booleans()):
-                sl["signs"] = draw(st.lists(st.sampled_from(l["signs"]), min_size=1, unique=True))
-            if l.get("lights") and draw(st.booleans()):
-                sl["lights"] = draw(st.lists(st.sampled_from(l["lights"]), min_size=1, unique=True))
+            # file formats keep a stop line's references independent of its lanelet's ("free_stop_refs")
+            free = profile.get("free_stop_refs") and draw(st.booleans())
+            pool_s = [x["id"] for x in net["signs"]] if free else l.get("signs")
+            pool_l = [x["id"] for x in net["lights"]] if free else l.get("lights")
+            if pool_s and draw(st.booleans()):
+                sl["signs"] = draw(st.lists(st.sampled_from(pool_s), min_size=1, unique=True))
+            if pool_l and draw(st.booleans()):
+                sl["lights"] = draw(st.lists(st.sampled_from(pool_l), min_size=1, unique=True))
             if draw(st.booleans()):
                 sl["start"], sl["end"] = draw(point(300)), draw(point(300))
             l["stop_line"] = sl
@@ -474,7 +478,7 @@ def obstacle_recipe(draw, oid, role=None, profile=None, lim=200, around=None):
                 t += 1
             occ.append({"t": tt, "shape": draw(gg.any_shape(centered=False) if profile.get("occ_groups", True)
                                                 else gg.simple_shape(centered=False))})
-        return {"role": role, "id": oid, "pred": {"k": "set", "t0": t0, "occ": occ}}
+        return {"role": role, "id": oid, "pred": {"k": "set", "t0": t0, "occ": shuffled(draw, occ)}}
     shape = draw(profile.get("shape", gg.any_shape(centered=True)))
     init_fields = draw(profile.get("init_fields", st.just(["position", "orientation", "velocity", "acceleration",
                                                            "yaw_rate", "slip_angle"])))
@@ -513,7 +517,7 @@ def obstacle_recipe(draw, oid, role=None, profile=None, lim=200, around=None):
                 tt = t
                 t += 1
             occ.append({"t": tt, "shape": draw(gg.simple_shape(centered=False))})
-        ob["pred"] = {"k": "set", "t0": t0 + 1, "occ": occ}
+        ob["pred"] = {"k": "set", "t0": t0 + 1, "occ": shuffled(draw, occ)}
     return ob
 
 
@@ -584,6 +588,14 @@ def scenario_recipe(draw, profile=None, max_lanelets=6, max_obstacles=5, max_pps
             "scenario_id": draw(st.one_of(st.none(), scenario_id_recipe())), "meta": meta,
             "location": draw(location_recipe()), "lanelets": net["lanelets"], "signs": net["signs"],
             "lights": net["lights"], "intersections": net["intersections"], "obstacles": obstacles, "pps": pps}
+
+
+def shuffled(draw, items):
+    """The occupancy list of a set-based prediction is a plain list: in a third of the cases it is not in ascending
+    time order (nothing in the library or the formats requires that)."""
+    if len(items) > 1 and draw(st.integers(0, 2)) == 0:
+        return list(draw(st.permutations(items)))
+    return items
 
 
 def occupancies_simple():
